@@ -313,6 +313,10 @@ def run(ctx):
     pair_ops = [op for op in ops if op[1] not in ("reboot", "bootload")]
     pair_bound = ctx.pick(2, 3)
     jobs += [("pair", ((a, b), pair_bound)) for a, b in itertools.product(pair_ops, repeat=2)]
+    # (c'') long sessions: 60 / 97 requests on one object, one tolerated latency anywhere
+    for length, step in ((60, 5), (97, 11)):
+        session = tuple(pair_ops[(step * k + 2) % len(pair_ops)] for k in range(length))
+        jobs.append(("pair", (session, 1)))
     if ctx.thorough:
         # (b') every method after one healthy operation (state left behind by another request)
         pre_names = ("motors_enable", "var_write", "write_nickname", "pen_lower", "query",
@@ -337,7 +341,8 @@ def run(ctx):
         "rule": "(a) command/query x 14 request strings x all environment vectors with <= "
                 f"{prim_bound} deviations; (b) {len(ops)} request-method calls (introspected) x "
                 f"all vectors with <= {meth_bound} deviations; (c) all ordered pairs of request "
-                "methods x per-reply latencies in {0,1,25}" +
+                "methods x per-reply latencies in {0,1,25}; two sessions of 60 and 97 requests on "
+                "one object with one tolerated latency anywhere" +
                 ("; thorough: every method after each of 7 healthy operations (<= 2 deviations) "
                  "and all ordered triples of one call per method (<= 1 deviation)"
                  if ctx.thorough else "") +
